@@ -599,9 +599,12 @@ def run(rep, tier):
     # phase 2: the generated rest within the remaining time budget of the tier
     t_pool = time.time()
     first = l3_tasks[:4] + l2_tasks[:8]
-    rest = l3_tasks[4:] + l2_tasks[8:]
+    rest = []
+    a, b = l3_tasks[4:], l2_tasks[8:]
+    for i in range(max(len(a), len(b))):      # interleaved so that both kinds progress under the time budget
+        rest += a[i:i + 1] + b[i:i + 1]
     out1 = pool.run_tasks(any_task, first, timeout=400, total_timeout=600)
-    budget = (80 - (time.time() - t_start)) if tier == "quick" else 1000
+    budget = (70 - (time.time() - t_start)) if tier == "quick" else (840 - (time.time() - t_start))
     out2 = pool.run_tasks(any_task, rest, timeout=120 if tier == "quick" else 600, total_timeout=budget) if budget > 8 and rest else [("timeout", None)] * len(rest)
     tasks = first + rest
     out = list(out1) + list(out2)
@@ -651,7 +654,11 @@ def run(rep, tier):
             print(f"KNOWN-FINDING: property={PID} {k['id']}: {k['what']}")
             print(f"  failing input: {f['what'][:700]}")
     rep.coverage["known_findings_hit_module"] = sorted(seen)
-    rep.coverage["known_findings_cases"] = [f["case"] for _k, f in known_hits[:4]]
+    distinct_cases = {}
+    for _k, f in known_hits:
+        distinct_cases.setdefault((f["case"]["spec"]["id"], f["sig"].get("interrupt")), f["case"])
+    rep.coverage["known_findings_cases"] = list(distinct_cases.values())[:6]
+    rep.coverage["known_findings_hits"] = len(known_hits)
     rep.coverage["traces_validated_against_impl"] = rep.coverage.get("contracts_model_checked", 0)
     return rep.finish(
         checker_cmd="make -C coq Props/C20.vo (coq_makefile, coqc 8.16.1) after regenerating coq/Gen/GenCopies.v from /repo/src/halmos/sevm.py",
